@@ -874,6 +874,206 @@ func c06Dispatch(line string) (string, []Fail) {
 	return res, fails
 }
 
+// c06Stage: one ISequenceSubChunk stage (one worker, one classifier object, as IUniqueSequence uses it) on a
+// sequence of batches.  result: `B <n> <ids of batch 1> ... C <codes> V <values>`: the batches pushed, in the order
+// they are pushed (ids sorted inside a batch: sort.Sort is not stable), then, asked from the classifier after the
+// run, the codes of the records of the last batch that was coded (len > 1) and Value(code) of each distinct code.
+//
+//	stage k=<s|a:keyhex> na=<hex> <rec> ... / <rec> ... / ...
+func c06Stage(line string) (string, []Fail) {
+	f := strings.Fields(line)
+	bad := func() (string, []Fail) { caseTrivial = true; return "bad-op", nil }
+	if len(f) < 3 || !strings.HasPrefix(f[1], "k=") || !strings.HasPrefix(f[2], "na=") {
+		return bad()
+	}
+	na, ok := c06unhs(f[2][3:])
+	if !ok {
+		return bad()
+	}
+	kd := f[1][2:]
+	var key string
+	isSeq := kd == "s"
+	if !isSeq {
+		if !strings.HasPrefix(kd, "a:") {
+			return bad()
+		}
+		if key, ok = c06unhs(kd[2:]); !ok {
+			return bad()
+		}
+	}
+	var batches [][]c06Rec
+	cur := []c06Rec{}
+	for _, w := range f[3:] {
+		if w == "/" {
+			batches = append(batches, cur)
+			cur = []c06Rec{}
+			continue
+		}
+		r, ok := c06ParseRec(w)
+		if !ok {
+			return bad()
+		}
+		cur = append(cur, r)
+	}
+	batches = append(batches, cur)
+	stat("stage")
+	if isSeq {
+		stat("stage:seq")
+	} else {
+		stat("stage:annot")
+	}
+	valOf := func(r *c06Rec) string {
+		if isSeq {
+			return string(r.seq)
+		}
+		if v, ok := r.attr(key); ok {
+			return v
+		}
+		return na
+	}
+	var got [][]string
+	var codes []int
+	var vals []string
+	var cl *obiseq.BioSequenceClassifier
+	res := guardT(30*time.Second, func() string {
+		if isSeq {
+			cl = obiseq.SequenceClassifier()
+		} else {
+			cl = obiseq.AnnotationClassifier(key, na)
+		}
+		it := obiiter.MakeIBioSequence()
+		it.Add(1)
+		var last []*obiseq.BioSequence
+		built := make([][]*obiseq.BioSequence, len(batches))
+		for bi, b := range batches {
+			for i := range b {
+				built[bi] = append(built[bi], b[i].build(i))
+			}
+			if len(b) > 1 {
+				last = built[bi]
+			}
+		}
+		go func() {
+			for bi := range batches {
+				sl := obiseq.MakeBioSequenceSlice()
+				sl = append(sl, built[bi]...)
+				it.Push(obiiter.MakeBioSequenceBatch("src", bi, sl))
+			}
+			it.Done()
+		}()
+		go it.WaitAndClose()
+		out, err := obichunk.ISequenceSubChunk(it, cl, 1)
+		if err != nil {
+			return "err"
+		}
+		type ob struct {
+			order int
+			ids   []string
+		}
+		var obs []ob
+		for out.Next() {
+			b := out.Get()
+			o := ob{order: b.Order()}
+			for _, s := range b.Slice() {
+				o.ids = append(o.ids, c06hs(s.Id()))
+			}
+			sort.Strings(o.ids)
+			obs = append(obs, o)
+		}
+		sort.SliceStable(obs, func(i, j int) bool { return obs[i].order < obs[j].order })
+		for _, o := range obs {
+			got = append(got, o.ids)
+		}
+		for _, s := range last {
+			codes = append(codes, cl.Code(s))
+		}
+		return "ok"
+	})
+	if res != "ok" {
+		return res, []Fail{{"stage." + res, "ISequenceSubChunk ended with " + res}}
+	}
+	// Value(code) of every distinct code, each call guarded on its own (log.Fatalf / index out of range)
+	seen := map[int]bool{}
+	p := []string{"B", strconv.Itoa(len(got))}
+	for _, ids := range got {
+		if len(ids) == 0 {
+			p = append(p, "-")
+		} else {
+			p = append(p, strings.Join(ids, ","))
+		}
+	}
+	cs := make([]string, len(codes))
+	for i, c := range codes {
+		cs[i] = strconv.Itoa(c)
+		if seen[c] {
+			continue
+		}
+		seen[c] = true
+		c := c
+		v := guardT(5*time.Second, func() string { return "ok:" + cl.Value(c) })
+		if strings.HasPrefix(v, "ok:") {
+			v = c06hs(v[3:])
+		}
+		if v != "panic" && v != "fatal" {
+			stat("stage:value-ok")
+		} else {
+			stat("stage:value-" + v)
+		}
+		vals = append(vals, v)
+	}
+	p = append(p, "C", c06JoinOrDash(cs), "V", c06JoinOrDash(vals))
+	result := strings.Join(p, " ")
+
+	// ---- oracle: the batches pushed are exactly the classes of each input batch -----------------
+	var fails []Fail
+	var exp [][]string
+	for _, b := range batches {
+		if len(b) <= 1 {
+			ids := []string{}
+			for i := range b {
+				ids = append(ids, c06hs(b[i].id))
+			}
+			exp = append(exp, ids)
+			continue
+		}
+		idx := map[string]int{}
+		var cls [][]string
+		for i := range b {
+			v := valOf(&b[i])
+			k, ok := idx[v]
+			if !ok {
+				k = len(cls)
+				idx[v] = k
+				cls = append(cls, nil)
+			}
+			cls[k] = append(cls[k], c06hs(b[i].id))
+		}
+		for _, c := range cls {
+			sort.Strings(c)
+			exp = append(exp, c)
+		}
+	}
+	flat := func(l [][]string) string {
+		q := make([]string, len(l))
+		for i, x := range l {
+			q[i] = strings.Join(x, ",")
+		}
+		sort.Strings(q) // the order of the classes is not part of the property
+		return strings.Join(q, " ")
+	}
+	if flat(exp) != flat(got) {
+		fails = append(fails, Fail{"stage.classes", "sub-batches: expected " + flat(exp) + " got " + flat(got)})
+	}
+	return result, fails
+}
+
+func c06JoinOrDash(l []string) string {
+	if len(l) == 0 {
+		return "-"
+	}
+	return strings.Join(l, ",")
+}
+
 func c06ShowDisp(m map[int]int) string {
 	codes := make([]int, 0, len(m))
 	for k := range m {
@@ -890,6 +1090,9 @@ func c06ShowDisp(m map[int]int) string {
 func (c06) Exec(line string) (string, []Fail) {
 	if strings.HasPrefix(line, "dispatch ") {
 		return c06Dispatch(line)
+	}
+	if strings.HasPrefix(line, "stage ") {
+		return c06Stage(line)
 	}
 	c, ok := c06Parse(line)
 	if !ok {
@@ -927,6 +1130,7 @@ func (c06) Exec(line string) (string, []Fail) {
 	}
 
 	var gotU, gotD, gotR []string
+	var repFails []Fail
 	var demerged []c06Rec
 	res := guardT(30*time.Second, func() string {
 		in := make([]*obiseq.BioSequence, len(c.recs))
@@ -938,8 +1142,29 @@ func (c06) Exec(line string) (string, []Fail) {
 			return "err"
 		}
 		gotU = make([]string, len(out))
+		// the representative: id and sequence of a member of the class of its key, qualities dropped
+		members := map[string]map[string]bool{}
+		for i := range c.recs {
+			k := c.key(&c.recs[i])
+			if members[k] == nil {
+				members[k] = map[string]bool{}
+			}
+			members[k][c.recs[i].id] = true
+		}
 		for i, s := range out {
 			gotU[i] = c06Canon(s, c.stats)
+			o := c06Rec{seq: s.Sequence()}
+			for _, k := range c.cats {
+				if v, ok := s.GetAttribute(k); ok {
+					o.attrs = append(o.attrs, c06Attr{key: k, sval: c06ValStr(v)})
+				}
+			}
+			if !members[c.key(&o)][s.Id()] && len(repFails) < 3 {
+				repFails = append(repFails, Fail{"uniq.rep." + mode, fmt.Sprintf("output record %s (%s) has not the id of an input record with its key", s.Id(), gotU[i])})
+			}
+			if s.HasQualities() && len(repFails) < 3 {
+				repFails = append(repFails, Fail{"uniq.qual." + mode, "output record " + s.Id() + " still carries qualities"})
+			}
 		}
 		r := c06ShowAll("U", append([]string{}, gotU...))
 		if c.hasDm {
@@ -1006,6 +1231,13 @@ func (c06) Exec(line string) (string, []Fail) {
 		return res, fails
 	}
 	// ---- oracle -------------------------------------------------------------------------------
+	for i := range c.recs {
+		if c.recs[i].count == 0 {
+			stat("zero-count:model-only")
+			return res, fails
+		}
+	}
+	fails = append(fails, repFails...)
 	expU, total, ones := c.expected(c.recs)
 	sort.Strings(gotU)
 	if strings.Join(expU, " ") != strings.Join(gotU, " ") {
@@ -1150,6 +1382,10 @@ var c06Vals = []string{"x1", "x2", "A b", "NA", "", "{k:v}", "a,b;c=d", "é", "[
 // sequences (more than 100 classes in one run: the merged classes are delivered in batches of 100).
 var c06ManyKeys int
 
+// c06ZeroCounts makes c06GenRecs give a quarter of the records the attribute count=0 (outside the property's
+// quantifier — counts >= 1 —: such cases are compared with the model only, the recount oracle is skipped)
+var c06ZeroCounts bool
+
 func c06GenRecs(rng *rand.Rand, n int, na string, consistentMerged bool) []c06Rec {
 	nseq := 1 + rng.Intn(6)
 	minlen := 1
@@ -1191,6 +1427,9 @@ func c06GenRecs(rng *rand.Rand, n int, na string, consistentMerged bool) []c06Re
 			r.count = 1
 		default:
 			r.count = 1 + rng.Intn(30)
+		}
+		if c06ZeroCounts && rng.Intn(4) == 0 {
+			r.count = 0
 		}
 		for _, k := range []string{"sample", "run", "tag", "extra"} {
 			if rng.Intn(3) != 0 {
@@ -1283,6 +1522,67 @@ func (c06) Gen(rng *rand.Rand, tier string, emit func(string)) {
 	for _, l := range corpus {
 		emit(l)
 	}
+	// a classifier that carries something over the per-batch Reset: sequence class X (values s2, s1) followed, in
+	// the same chain, by class Y whose records arrive as s1, s2, s1 — and the orders around it
+	{
+		mk := func(id, seq, v string) c06Rec {
+			r := c06Rec{id: id, seq: []byte(seq), count: -1}
+			if v != "" {
+				r.attrs = []c06Attr{{key: "sample", sval: v}}
+			}
+			return r
+		}
+		orders := [][]c06Rec{
+			{mk("r1", "acgt", "s2"), mk("r2", "acgt", "s1"), mk("r3", "ttga", "s1"), mk("r4", "ttga", "s2"), mk("r5", "ttga", "s1")},
+			{mk("r1", "acgt", "s1"), mk("r2", "acgt", "s2"), mk("r3", "ttga", "s1"), mk("r4", "ttga", "s1"), mk("r5", "ttga", "s2")},
+			{mk("r1", "acgt", "s2"), mk("r2", "acgt", ""), mk("r3", "ttga", ""), mk("r4", "ttga", "s2"), mk("r5", "ttga", "NA")},
+			{mk("r3", "ttga", "s1"), mk("r4", "ttga", "s2"), mk("r5", "ttga", "s1"), mk("r1", "acgt", "s1"), mk("r2", "acgt", "s2"), mk("r6", "acgt", "s1")},
+		}
+		for _, recs := range orders {
+			for _, disk := range []bool{false, true} {
+				for _, ns := range []bool{false, true} {
+					for _, ch := range []int{1, 2} {
+						cc := c06Case{disk: disk, chunks: ch, workers: 1, bsize: 6, ns: ns, na: "NA", cats: []string{"sample"}, recs: recs}
+						emit(cc.line())
+					}
+				}
+			}
+		}
+	}
+	// one ISequenceSubChunk stage on a history of batches (classifier state across Reset)
+	emit("stage k=a:73 na=4e41 61:6161:-:73=s78:- 62:6161:-:73=s79:- 63:6161:-:73=s78:- / 64:6161:-:73=s79:- 65:6161:-:-:- 66:6161:-:73=s79:- / 67:6161:-:-:-")
+	emit("stage k=s na=4e41 61:6161:-:73=s78:- 62:6163:-:73=s79:- 63:6161:-:73=s78:-")
+	emit("stage k=a:73 na=78 61:6161:-:73=s78:- 62:6161:-:-:- / / 63:6161:-:-:- 64:6163:-:73=s78:- 65:6163:-:73=s79:-")
+	nstage := 200
+	if tier == "thorough" {
+		nstage = 600
+	}
+	for i := 0; i < nstage; i++ {
+		na := []string{"NA", "", "x1"}[rng.Intn(3)]
+		kd := "s"
+		if rng.Intn(3) != 0 {
+			kd = "a:" + c06hs([]string{"sample", "run", "n_lib"}[rng.Intn(3)])
+		}
+		p := []string{"stage", "k=" + kd, "na=" + c06hs(na)}
+		nb := 1 + rng.Intn(6)
+		id := 0
+		for b := 0; b < nb; b++ {
+			if b > 0 {
+				p = append(p, "/")
+			}
+			n := rng.Intn(9)
+			if rng.Intn(6) == 0 {
+				n = 20 + rng.Intn(150) // more than the 100 slots `ordered` starts with
+			}
+			recs := c06GenRecs(rng, n, na, false)
+			for j := range recs {
+				recs[j].id = fmt.Sprintf("r%d", id)
+				id++
+				p = append(p, recs[j].line())
+			}
+		}
+		emit(strings.Join(p, " "))
+	}
 	// the chunk files must be complete when WriterDispatcher returns (ISequenceChunkOnDisk reads them at once)
 	emit("dispatch c=1 b=2 61:61636774:-:-:- 62:61636774:3:73=s79:- 63:6161:2:-:73~78=1~7a=1")
 	emit("dispatch c=7 b=1 61:61636774:-:-:- 62:61636774:3:73=s79:- 63:6161:2:-:73~78=1~7a=1 64:67:-:-:- 65:74:-:-:- 66:6163:-:-:-")
@@ -1307,7 +1607,7 @@ func (c06) Gen(rng *rand.Rand, tier string, emit func(string)) {
 	if tier == "thorough" {
 		nbase = 1500
 	}
-	chunkChoices := []int{1, 2, 7, 100}
+	chunkChoices := []int{1, 2, 7, 100, 3, 16}
 	for i := 0; i < nbase; i++ {
 		na := "NA"
 		switch rng.Intn(6) {
@@ -1328,8 +1628,23 @@ func (c06) Gen(rng *rand.Rand, tier string, emit func(string)) {
 			c06ManyKeys = 101 + rng.Intn(160)
 			n = c06ManyKeys + 40 + rng.Intn(120)
 		}
+		if i%20 == 13 {
+			// an input that is (almost) dereplicated already: nearly every class holds one record
+			n = 2 + rng.Intn(60)
+			c06ManyKeys = 4 * n
+		}
+		if tier == "thorough" && i%500 == 250 {
+			// more than 10000 distinct classes
+			c06ManyKeys = 10001 + rng.Intn(500)
+			n = c06ManyKeys + 2000
+		}
 		consistent := rng.Intn(2) == 0
+		// count=0 records are not generated: SetCount turns every intermediate sum < 1 into 1, so that the merged
+		// count of a class with such members depends on the order in which sort.Sort leaves them (observed:
+		// model layers with a stable and an anti-stable sort differ) — outside the quantifier (counts >= 1)
+		c06ZeroCounts = false
 		base := c06GenRecs(rng, n, na, consistent)
+		c06ZeroCounts = false
 		cats := c06Subset(rng, []string{"sample", "run", "n_lib"}, 2)
 		stats := c06Subset(rng, []string{"sample", "tag", "n_lib", "run"}, 2)
 		if rng.Intn(3) == 0 && len(stats) == 0 {
@@ -1364,8 +1679,14 @@ func (c06) Gen(rng *rand.Rand, tier string, emit func(string)) {
 			if v > 0 {
 				rng.Shuffle(len(cc.recs), func(a, b int) { cc.recs[a], cc.recs[b] = cc.recs[b], cc.recs[a] })
 			}
-			cc.chunks = chunkChoices[rng.Intn(4)]
-			cc.workers = 1 + rng.Intn(8)
+			cc.chunks = chunkChoices[rng.Intn(len(chunkChoices))]
+			if rng.Intn(5) == 0 {
+				cc.chunks = 1 + rng.Intn(len(base)+2) // every chunk count 1..N
+			}
+			if len(base) > 5000 && cc.chunks < 7 {
+				cc.chunks = 100
+			}
+			cc.workers = 1 + rng.Intn(16)
 			cc.bsize = 1 + rng.Intn(len(base)+2)
 			cc.disk = rng.Intn(3) == 0
 			emit(cc.line())
